@@ -102,6 +102,14 @@ class Server:
         self.nat_of = {}       # uuid -> nat id
         self.obj_nat = {}      # python id of a bptk object -> nat id of the instance it serves
         self.t0 = _dt.datetime.now()
+        # a restored instance can be swept inside the very request that restored it (the clock moves between the reads):
+        # learn which id its bptk object serves as soon as it is reconstructed, not only at the next observation
+        im, orig_rec = self.app._instance_manager, self.app._instance_manager.reconstruct_instance
+        def reconstruct(instance_uuid, *a, **k):
+            r = orig_rec(instance_uuid, *a, **k)
+            srv._learn()
+            return r
+        im.reconstruct_instance = reconstruct
         self.shown = []        # destroy log as reported: the ids destroyed by one request in ascending order
         self.restored_ids = set()
 
@@ -139,6 +147,11 @@ class Server:
 
     def uuid(self, n):
         return self.uuid_of.get(n, "dead%028d" % n)
+
+    def listing(self):
+        """ids of the stored instances in the order of the directory listing the adapter's load_state will see"""
+        self._learn()
+        return [self.nat_of[f.split(".")[0]] for f in os.listdir(self.dir) if f.endswith(".json") and f.split(".")[0] in self.nat_of]
 
     # ---- events
     def do(self, ev):
@@ -210,6 +223,8 @@ def ev_line(now, ev, incs=()):
         return f"{head} keepalive {ev[1]}"
     if k == "stop":
         return f"{head} stop {ev[1]}"
+    if k == "loadstate" and len(ev) > 1:
+        return f"{head} loadord {','.join(map(str, ev[1])) if ev[1] else '-'}"
     return f"{head} {k}"
 
 
@@ -361,8 +376,8 @@ def next_event(rng, o, now, ncreated, max_inst):
 def gen_incs(rng, ev, nlive):
     """clock increments between the reads of ONE request (µs): none (fixed clock), all 1 (so that an expiry
     boundary aimed at by the start time falls between two particular reads), or small random steps"""
-    if ev[0] in ("loadstate", "stop", "savestate"):
-        return []        # load-state reads once per stored file in directory-listing order: not modelled with a moving clock
+    if ev[0] in ("stop", "savestate"):
+        return []        # no clock read
     r = rng.below(10)
     if r < 4:
         return []
@@ -458,13 +473,18 @@ def pattern_history(rng):
 
 
 def run_history(events, on_step=None):
-    """Replay [(t, ev[, increments])] on a fresh server under the controlled clock. Returns (lines, violations)."""
+    """Replay [(t, ev[, increments])] on a fresh server under the controlled clock. Returns (lines, violations).
+    (`events` is updated in place with the listing order observed for load-state requests.)"""
+    events[:] = [norm(x) for x in events]
     s = Server()
     lines, viols = [], []
     try:
         before = s.observe()
         for idx, item in enumerate(events):
             now, ev, incs = norm(item)
+            if ev[0] == "loadstate":
+                ev = ("loadstate", s.listing())     # the order is observed on this run, never taken from a stored history
+                events[idx] = (now, ev, incs)
             s.clock.begin(now, incs)
             ok, rep = s.do(ev)
             reads = s.clock.reads
@@ -490,6 +510,8 @@ def generate_and_run(rng, n_events, max_inst):
         now, o = 0, s.observe()
         for idx in range(n_events):
             now, ev, incs = next_event(rng, o, now, len(s.uuid_of), max_inst)
+            if ev[0] == "loadstate":
+                ev = ("loadstate", s.listing())
             s.clock.begin(now, incs)
             ok, rep = s.do(ev)
             reads = s.clock.reads
@@ -510,13 +532,15 @@ def generate_and_run(rng, n_events, max_inst):
     return events, lines, viols
 
 
-STATS = {"requests_with_moving_clock": 0, "deadline_inside_request": 0, "restores": 0, "restored_then_expired": 0, "restored_then_expired_with_other_live": 0, "loadstate_overwrites": 0}
+STATS = {"idle_beyond_24h": 0, "expiry_checks_with_timeout_ge_1day": 0, "requests_with_moving_clock": 0, "deadline_inside_request": 0, "restores": 0, "restored_then_expired": 0, "restored_then_expired_with_other_live": 0, "loadstate_overwrites": 0}
 
 
 def count_clock(before, now, hi, reads):
     if reads > 1 and hi > now:
         STATS["requests_with_moving_clock"] += 1
         STATS["deadline_inside_request"] += sum(1 for _, l, tau, _ in before["live"] if now < l + tau <= hi)
+    STATS["idle_beyond_24h"] += sum(1 for _, l, tau, _ in before["live"] if now - l >= DAY)
+    STATS["expiry_checks_with_timeout_ge_1day"] += sum(1 for _, l, tau, _ in before["live"] if tau >= DAY and now >= l + tau)
 
 
 def track(s, before, ev, after):
@@ -599,6 +623,13 @@ def fixed_histories():
          (2_299_999, ("fullmetrics",)), (2_300_001, ("fullmetrics",))],
         [(2_999_999, ("create", {"microseconds": 900})), (2_999_999, ("create", {"milliseconds": 2})), (3_000_500, ("keepalive", 0), [200, 200, 200]),
          (3_001_390, ("access", 1, "results"), [5, 5, 5]), (3_001_500, ("metrics",))],
+        # time scales (wave 6): the comparison is on the whole duration — a day and more, idle times beyond 24 h, sub-second
+        [(0, ("create", {"hours": 24})), (0, ("create", {"hours": 2})), (0, ("create", {"days": 7})), (0, ("create", {"milliseconds": 300})),
+         (299_999, ("metrics",)), (300_000, ("metrics",)), (2 * 3600 * S - 1, ("metrics",)), (DAY - 1, ("fullmetrics",)), (DAY, ("fullmetrics",)),
+         (DAY + 1, ("create", {"hours": 2})), (2 * DAY + 1, ("metrics",)), (7 * DAY - 1, ("metrics",)), (7 * DAY, ("metrics",), [1])],
+        [(0, ("create", {"hours": 2})), (0, ("create", {"hours": 25})), (1, ("access", 1, "begin")), (2, ("access", 1, "step")), (DAY + S, ("keepalive", 1)),
+         (DAY + S, ("fullmetrics",)), (2 * DAY + 2 * S + 3600 * S, ("metrics",)), (3 * DAY, ("loadstate",), [5]), (3 * DAY + 25 * 3600 * S + 4, ("metrics",)),
+         (3 * DAY + 25 * 3600 * S + 5, ("metrics",))],
         # a request that lasts longer than the timeout of the instance it addresses
         [(0, ("create", {"microseconds": 10})), (5, ("access", 0, "results"), [4, 4, 4]), (100, ("create", {"microseconds": 10})), (105, ("keepalive", 1), [20, 20])],
         # every unit
@@ -642,6 +673,37 @@ def probe_stamp_exact():
     return all(l.startswith(w) for l, w in zip(lines, want))
 
 
+DAY = 86400 * 10**6
+
+
+def probe_expiry():
+    """rows (idle µs, timeout µs, removed?) of the real sweep at the time scales a comparison on a COMPONENT of the
+    durations would get wrong: just below / at / above the timeout, idle times beyond 24 h, sub-second timeouts"""
+    S = 10**6
+    plans = [({"hours": 23, "minutes": 59}, lambda T: [T - 1, T, T + 1, T + 60 * S, T + DAY]),
+             ({"hours": 24}, lambda T: [T - 1, T, T + 1, T + 5 * S, 2 * DAY]),
+             ({"hours": 25}, lambda T: [DAY - 1, DAY + 5 * S, T - 1, T, T + 1, 2 * DAY + 5 * S]),
+             ({"days": 7}, lambda T: [DAY, 6 * DAY + 86399 * S, T - 1, T, T + 1, 8 * DAY + 1]),
+             ({"milliseconds": 300}, lambda T: [T - 1, T, T + 1, 999_999, S, DAY + 1]),
+             ({"hours": 2}, lambda T: [T - 1, T, DAY + S, DAY + T - 1]),
+             ({"seconds": 1, "microseconds": 1}, lambda T: [S, T, DAY + S])]
+    rows = []
+    srv = Server()
+    try:
+        t0 = 0
+        for td, idles in plans:
+            T = micros(td)
+            for idle in idles(T):
+                srv.clock.begin(t0); srv.do(("create", td))
+                new = max(i for i, *_ in srv.observe()["live"])
+                srv.clock.begin(t0 + idle); srv.do(("metrics",))
+                rows.append((idle, T, new not in {i for i, *_ in srv.observe()["live"]}))
+                t0 += idle + 1
+    finally:
+        srv.close()
+    return rows
+
+
 def probe_reads():
     """number and position of the datetime.now() reads per endpoint, observed with a clock that advances by
     1, 10, 100, … after successive reads (the stored timestamp tells which read wrote it)"""
@@ -670,7 +732,7 @@ def probe_reads():
     return out
 
 
-def gen_lean(restores, exact=True):
+def gen_lean(restores, exact=True, exp_rows=()):
     b = "true" if restores else "false"
     body = ("theorem holds : C17_full cfg := C17_full_of_good cfg (by decide)\n#print axioms holds\n"
             "theorem holds2 : C17_full2 cfg := C17_full2_of_good cfg (by decide)\n#print axioms holds2\n" if restores else
@@ -685,6 +747,20 @@ def gen_lean(restores, exact=True):
     body += (f"def cfgR : CfgR := {{ keepAliveRestores := {b}, stampExact := {x} }}\n")
     body += ("theorem holdsR : C17R_full cfgR := C17R_full_of_good cfgR (by decide)\n#print axioms holdsR\n" if exact else
              "theorem violatedR : ¬ C17R_full cfgR := C17R_witness_trunc_full cfgR (by decide)\n#print axioms violatedR\n")
+    body += ("theorem destroy_balanceR (evs : List Req) (k : Nat) :\n"
+             "    (runR cfgR State.init evs).destroyed.count k + (if hasId (runR cfgR State.init evs) k then 1 else 0)\n"
+             "      ≤ incarnations (runR cfgR State.init evs) k := C17R_destroyed_at_most_once cfgR evs k\n#print axioms destroy_balanceR\n")
+    if exp_rows:
+        body += "def expObs : ExpObs := [" + ", ".join("(%d, %d, %s)" % (i, T, str(bool(v)).lower()) for i, T, v in exp_rows) + "]\n"
+        bad = next(((i, T) for i, T, v in exp_rows if bool(v) != (T <= i)), None)
+        if bad is None:
+            body += ("theorem expiry_full_duration : expiryIsFullDuration expObs = true := by decide +kernel\n"
+                     "theorem lifetime_clauses : LifetimeClauses (expOf expObs) := lifetime_of_good expObs expiry_full_duration\n"
+                     "#print axioms expiry_full_duration\n#print axioms lifetime_clauses\n")
+        else:
+            body += ("theorem expiry_not_full_duration : expiryIsFullDuration expObs = false := by decide +kernel\n"
+                     f"theorem violated_expiry : ¬ LifetimeClauses (expOf expObs) := C17_witness_expiry expObs {bad[0]} {bad[1]} (by decide +kernel)\n"
+                     "#print axioms violated_expiry\n")
     return ("import Bptk.Props.C17\n/-! GENERATED by harness/props/c17.py from /repo on every run — do not edit. -/\n"
             "namespace Bptk.C17.Gen\n"
             f"def cfg : Cfg := {{ keepAliveRestores := {b} }}\n" + body + "end Bptk.C17.Gen\n")
@@ -757,8 +833,11 @@ def run(chk):
         restores = probe_keepalive_restores()
         exact = probe_stamp_exact()
         chk.notes["clock_reads_per_endpoint"] = probe_reads()
-    chk.notes["cfg"] = {"keepAliveRestores": restores, "stampExact": exact}
-    ok, why = chk.prove(gen_lean(restores, exact))
+        exp_rows = probe_expiry()
+    exp_bad = [(i, T, v) for i, T, v in exp_rows if bool(v) != (T <= i)]
+    chk.notes["cfg"] = {"keepAliveRestores": restores, "stampExact": exact, "expiryIsFullDuration": not exp_bad}
+    chk.notes["expiry_rows"] = {"rows": len(exp_rows), "deviating": exp_bad[:10]}
+    ok, why = chk.prove(gen_lean(restores, exact, exp_rows))
     chk.cov["trusted_base"] = [
         "Lean 4.33 kernel; axioms propext, Classical.choice, Quot.sound (audited per run via #print axioms)",
         "hand-written model lean/Bptk/Core/C17.lean of InstanceManager (create/get/keep-alive/metrics, _timeout_instances) and of the instance-scoped views' _ensure_instance_exists -> get_instance order; tied to /repo by the correspondence of this check",
@@ -766,7 +845,7 @@ def run(chk):
         "Flask test client instead of a network server; wall-clock behaviour only through the thorough tier's real-time timelines",
     ]
     chk.assumptions = [
-        "requests are sequential; inside a request the clock advances between reads (CfgR / stepR / C17R_*), except during load-state (one read per stored file in directory-listing order: run with a fixed clock); timeouts: any JSON numbers the endpoint accepts — the model runs on max(0, timedelta) in microseconds (clamp_expiry), fractional values in quarters of a unit with timedelta's single half-even rounding (quarterMicros, validated against timedelta)",
+        "requests are sequential; inside a request the clock advances between reads (CfgR / stepR / C17R_*), except load-state included: one read per stored file in the directory-listing order, which is observed before the request and passed to the model (loadOrd); timeouts: any JSON numbers the endpoint accepts — the model runs on max(0, timedelta) in microseconds (clamp_expiry), fractional values in quarters of a unit with timedelta's single half-even rounding (quarterMicros, validated against timedelta)",
         "stop-instance / save-state / load-state are events of the model (Ev2): stop-instance and a load-state overwrite drop the bptk object without destroy() (ghost log `dropped`); the live set is compared by id (dict / directory-listing order after load-state is not modelled)",
         "'resources released' is observed as bptk.destroy() being called on the instance's bptk object",
         "reading: the next *request* to a timed-out externalised instance includes keep-alive (Cfg.keepAliveRestores); restored content is C19/C20's subject, here only presence, timer and timeout",
@@ -864,6 +943,10 @@ def run(chk):
         chk.add_finding("keep-alive-no-restore", "probe: create {seconds:1}; begin-session; run-step (externalised); metrics at 5 s (timed out); keep-alive at 6 s -> HTTP 500, not restored",
                         {"events": [[0, ["create", {"seconds": 1}]], [1, ["access", 0, "begin"]], [2, ["access", 0, "step"]], [5000000, ["metrics"]], [6000000, ["keepalive", 0]]],
                          "key": "keep-alive-no-restore"})
+    if exp_bad and not [k for k in seen if k in ("immortal", "removed-early", "release-count")]:
+        i, T, v = exp_bad[0]
+        chk.add_finding("expiry-not-full-duration", f"probe: instance with timeout {T} µs, metrics after {i} µs of idle time: removed={v}, but timeout <= idle is {T <= i}",
+                        {"events": [[0, ["create", {"microseconds": T}], []], [i, ["metrics"], []], [i, ["fullmetrics"], []]], "key": None})
     if not exact and not [k for k in seen if k in ("timestamp-before-request", "timer-corrupted", "removed-early")]:
         chk.add_finding("timestamp-before-request", "probe: create at 1.5 s / session-results at 2.999999 s / keep-alive at 3.99999 s: the stored last-access time is not a clock reading of the request",
                         {"events": [[1500000, ["create", {"seconds": 5}], []], [2999999, ["access", 0, "results"], []]], "key": "timestamp-before-request"})
